@@ -33,7 +33,11 @@ META = dict(
                "Process Time / Run Time - asIs_restart_keeps_clocks. (A third defect repaired by the same diff, "
                "the clocks standing still for a whole run after Pause, Stop, Start, is not demanded by C07.) The "
                "tag-value statements are for ticks in which the interpreter starts or ends no block/scope (then the "
-               "displayed timer changes identity); the timer-level statement has no such restriction. Trusted: Lean "
+               "displayed timer changes identity); the timer-level statement has no such restriction. The model follows "
+               "/repo 29706dcf (a run start clears the Scope Time timers and stack; switch scopeReset, probed): a "
+               "change of Block Time / Scope Time to 0 at a run start is a reset, not an advance, and - a lemma "
+               "beyond the property text - both read 0 whenever an operation leaves a new run id "
+               "(block_scope_zero_at_run_start). Trusted: Lean "
                "kernel, harness, model (see C06); times are multiples of 1/8 s.",
     technique="Lean 4 proof (per-tick decomposition read+interpreter / clock update / commands+write; refinement "
               "to a guarded action system for the command phase; decide +kernel witnesses) + differential "
@@ -43,6 +47,7 @@ MODULE = "OPM.Properties.C07"
 REQUIRED = ["OPM.C07.process_time_only_while_running", "OPM.C07.run_time_only_while_active",
             "OPM.C07.clock_timers", "OPM.C07.block_time_only_while_running",
             "OPM.C07.scope_time_only_while_running", "OPM.C07.zero_at_run_start", "OPM.C07.never_decrease",
+            "OPM.C07.block_scope_zero_at_run_start",
             "OPM.C07.asIs_clocks_advance_during_hold", "OPM.C07.asIs_restart_keeps_clocks"]
 
 T = ["tick", 8, 8, 0]
